@@ -226,6 +226,12 @@ func (rc *l2Rec) onMsg(p *netsim.Peer, m wire.Message) bool {
 				rc.send(p, gd, "tx-getdata", &h, "")
 			case l2NoReqReject:
 				rc.send(p, l2RejectMsg(h, l2ClassByName(r.Class)), "tx-reject", &h, r.Class)
+			case l2Seq:
+				// The transaction's first arrival after THIS inv starts OnTx.
+				rc.mu.Lock()
+				rc.pending[key] = true
+				rc.mu.Unlock()
+				rc.runSteps(p, h, iv.Type, r.OnInv)
 			case l2Disconnect:
 				rc.mu.Lock()
 				p.Disconnect()
@@ -249,6 +255,12 @@ func (rc *l2Rec) onMsg(p *netsim.Peer, m wire.Message) bool {
 		switch r.Kind {
 		case l2Reject, l2TwiceReject, l2ForeignReject:
 			rc.send(p, l2RejectMsg(h, l2ClassByName(r.Class)), "tx-reject", &h, r.Class)
+		case l2Seq:
+			it := wire.InvTypeWitnessTx
+			if !t.HasWitness() {
+				it = wire.InvTypeTx
+			}
+			rc.runSteps(p, h, it, r.OnTx)
 		case l2OtherHash:
 			other := h
 			other[0] ^= 0xff
@@ -533,6 +545,10 @@ func l2Family(k int) string {
 		return "cosub-fixed"
 	case k == L2ForeignFixedK:
 		return "foreign-first-fixed"
+	case k == L2SeqFixedK:
+		return "reply-seq-fixed"
+	case k == L2SeqFixedK+1, k > L2SeqFixedK+1 && k%8 == 1:
+		return "reply-seq"
 	case k >= 13 && k <= 15, k >= 16 && k%4 == 3:
 		return "cosub"
 	case k%4 == 2:
@@ -565,6 +581,9 @@ func L2Scenario(seed int64, k int, res *l2.Result) {
 	}
 	if k == L2ForeignFixedK {
 		np = 3
+	}
+	if k == L2SeqFixedK {
+		np = 5
 	}
 	var cop coPlan
 	if coIsFamily(fam) {
@@ -623,6 +642,10 @@ func L2Scenario(seed int64, k int, res *l2.Result) {
 		e.coSubscribers(cop)
 	case "foreign-first-fixed":
 		e.foreignFirst()
+	case "reply-seq-fixed":
+		e.replySeqFixed()
+	case "reply-seq":
+		e.replySeq()
 	}
 	e.finish()
 }
@@ -1370,6 +1393,9 @@ func (e *l2Env) finish() {
 		res.Count("l2_calls_"+c.Concurrency, 1)
 		for _, r := range c.Script {
 			res.Count("l2_scripted_"+r.Kind, 1)
+			if r.Kind == l2Seq {
+				res.Count("l2_scripted_seq_"+r.Tmpl, 1)
+			}
 			if r.Class != "" {
 				res.Count("l2_scripted_class_"+r.Class, 1)
 			}
@@ -1419,13 +1445,28 @@ func (e *l2Env) finish() {
 		if v.FailAllow {
 			res.Count("l2_calls_failure_allowed", 1)
 		}
+		if len(v.Repeated) > 0 {
+			res.Count("l2_calls_with_a_peer_rejecting_repeatedly", 1)
+			res.Count("l2_peers_rejecting_repeatedly_judged", int64(len(v.Repeated)))
+			if !v.FailAllowAny {
+				res.Count("l2_calls_repeated_rejects_failure_not_allowed", 1)
+			}
+		}
+		if len(v.DupGetdata) > 0 {
+			res.Count("l2_peers_requesting_repeatedly_judged", int64(len(v.DupGetdata)))
+		}
 		switch {
+		case c.Err != nil && !v.FailAllow && v.FailAllowAny:
+			// Only a peer that changed its mind (a non-invalid reject first, an
+			// invalid one later, both in time) makes the failure allowed: the
+			// statement does not say which of a peer's answers is its vote.
+			res.Count("l2_counted_only_failure_allowed_only_by_a_peers_later_reject", 1)
 		case c.Err != nil && !v.FailAllow:
 			res.Count("l2_forbidden_failures", 1)
 			res.Violate(evid.Sig("c15/l2/broadcast-failed-though-accepted", v.Shape),
 				fmt.Sprintf("SendTransaction(%s) returned the error %q, but of the %d peers that replied in time (requested: %v; rejected: %v) not every one rejected, "+
 					"and the share calling it invalid is %d/%d = %.2f < %.2f", v.Tx, c.Err, v.Replying, v.Requested, v.Rejected,
-					len(v.Invalid), v.Replying, v.InvShare, v.Threshold),
+					len(v.Invalid), v.Replying, v.InvShare, v.Threshold)+l2RepeatedNote(v),
 				e.witness(c, nil))
 		case c.Err != nil:
 			res.Count("l2_allowed_failures", 1)
@@ -1433,7 +1474,15 @@ func (e *l2Env) finish() {
 			sent := map[pushtx.BroadcastErrorCode]int{}
 			for p, o := range v.Observed {
 				if strings.Contains(o, "-reject:") {
-					sent[l2ClassByName(c.Script[p].Class).Want]++
+					// one count per peer and meaning, whatever the number of
+					// rejects the peer wrote
+					seen := map[pushtx.BroadcastErrorCode]bool{}
+					for _, cl := range v.RejectsWritten[p] {
+						if w := l2ClassByName(cl).Want; !seen[w] {
+							seen[w] = true
+							sent[w]++
+						}
+					}
 				}
 			}
 			switch {
@@ -1462,8 +1511,12 @@ func (e *l2Env) finish() {
 			// says "fails only if", it does not demand failure.
 			onlyMempool := true
 			for p, o := range v.Observed {
-				if strings.Contains(o, "-reject:") && l2ClassByName(c.Script[p].Class).Want != pushtx.Mempool {
-					onlyMempool = false
+				if strings.Contains(o, "-reject:") {
+					for _, cl := range v.RejectsWritten[p] {
+						if l2ClassByName(cl).Want != pushtx.Mempool {
+							onlyMempool = false
+						}
+					}
 				}
 			}
 			if onlyMempool {
@@ -1489,4 +1542,13 @@ func (e *l2Env) finish() {
 		}
 		res.Sample = map[string]any{"l2_scenario": e.k, "family": e.fam, "peers": len(e.peers), "calls": e.views[:n]}
 	}
+}
+
+// l2RepeatedNote names the peers that wrote more than one reject of the
+// transaction during the call (each of them has one vote).
+func l2RepeatedNote(v *L2CallView) string {
+	if len(v.Repeated) == 0 {
+		return ""
+	}
+	return fmt.Sprintf(" (one vote per peer; %v wrote their reject more than once: %v)", v.Repeated, v.RejectsWritten)
 }
